@@ -455,7 +455,7 @@ class FeatureInterval(AbstractFeatureInterval):
             blocks = [[x.start, x.end] for x in self.relative_blocks]
             num_blocks = self.chunk_relative_location.num_blocks
         block_sizes = [end - start for start, end in blocks]
-        block_starts = [start - self.start for start, _ in blocks]
+        block_starts = [start - blocks[0][0] for start, _ in blocks]
 
         if chromosome_relative_coordinates:
             start = self.start
